@@ -108,6 +108,23 @@ func init() {
 			if traffic {
 				time.Sleep(2 * time.Millisecond)
 			}
+			if traffic && isStart && e == nil {
+				// a receiver that was started decodes: with datagrams arriving all the time, the
+				// decoder must be called again within 2 s of a successful Start (also after restarts)
+				before := atomic.LoadInt64(&decodedN)
+				alive := false
+				for w := 0; w < 400; w++ {
+					if atomic.LoadInt64(&decodedN) > before {
+						alive = true
+						break
+					}
+					time.Sleep(5 * time.Millisecond)
+				}
+				if !alive {
+					t.S("NODECODE")
+					return t.String()
+				}
+			}
 		}
 		if started {
 			if _, returned := call(false); !returned {
